@@ -136,10 +136,30 @@ func (e *Engine) Slice(v ssa.Value, opts SliceOpts, visit func(ssa.Value) Verdic
 				if n > 0 {
 					return
 				}
+				// no field store: the local was assigned as a whole (`req := <struct value>`): the field of what was assigned
+				okAll, any := true, false
+				for _, r := range *base.Referrers() {
+					if st, ok := r.(*ssa.Store); ok && st.Addr == ssa.Value(base) && !after(opts.At, st) {
+						any = true
+						if c, isC := st.Val.(*ssa.Const); isC && c.Value == nil {
+							continue
+						}
+						if !walkStructValueField(st.Val, x.Field, 0, func(val ssa.Value) { walk(val, depth+1, ctx) }) {
+							okAll = false
+						}
+					}
+				}
+				if any && okAll {
+					return
+				}
 			}
 			walk(x.X, depth+1, ctx)
 		case *ssa.Field:
-			walk(x.X, depth+1, ctx)
+			// a field of a struct VALUE: when the value is a locally built struct (possibly copied through other locals),
+			// follow only what was stored into that field
+			if !walkStructValueField(x.X, x.Field, 0, func(val ssa.Value) { walk(val, depth+1, ctx) }) {
+				walk(x.X, depth+1, ctx)
+			}
 		case *ssa.IndexAddr:
 			walk(x.X, depth+1, ctx)
 		case *ssa.Index:
@@ -566,4 +586,53 @@ func methodCallOn(v ssa.Value, method string) (ssa.Value, bool) {
 		return nil, false
 	}
 	return a[0], true
+}
+
+
+// walkStructValueField: v is a struct value; if it is the content of a local (a load of an Alloc) calls f on every value
+// stored into field i of that local — directly, or through whole-struct copies from other locals / composite literals —
+// and reports true (a local that is never written is the zero value and contributes nothing). Anything else (parameters,
+// call results, phis) is left to the caller.
+func walkStructValueField(v ssa.Value, field int, depth int, f func(ssa.Value)) bool {
+	if depth > 6 {
+		return false
+	}
+	u, ok := v.(*ssa.UnOp)
+	if !ok || u.Op != token.MUL {
+		return false
+	}
+	a, ok := u.X.(*ssa.Alloc)
+	if !ok || a.Referrers() == nil {
+		return false
+	}
+	writes := 0
+	for _, r := range *a.Referrers() {
+		switch x := r.(type) {
+		case *ssa.FieldAddr:
+			for _, rr := range *x.Referrers() {
+				if st, ok := rr.(*ssa.Store); ok && st.Addr == ssa.Value(x) {
+					writes++
+					if x.Field == field {
+						f(st.Val)
+					}
+				}
+			}
+		case *ssa.Store:
+			if x.Addr != ssa.Value(a) {
+				return false // the address escapes
+			}
+			writes++
+			if c, isC := x.Val.(*ssa.Const); isC && c.Value == nil {
+				continue // zero value
+			}
+			if !walkStructValueField(x.Val, field, depth+1, f) {
+				return false
+			}
+		case *ssa.UnOp, *ssa.DebugRef:
+		default:
+			return false // passed to a call, method receiver, …: may be written elsewhere
+		}
+	}
+	_ = writes
+	return true
 }
